@@ -160,6 +160,7 @@ def reference_mean(shim, info, pars, q, dim, cutoff=0.0, mode=0, max_points=None
     shell_v = wshell / norm
     if shell_v == 0:
         shell_v = 1.0
+    out["shell_raw"] = wshell / norm        # before the library's "zero volume becomes 1" substitution
     out.update(total_weight=tw, F1=F1sum / norm, F2=F2sum / norm, shell=shell_v,
                form=wform / norm, reff=wreff / norm,
                ratio=(wform / norm) / shell_v,
